@@ -23,22 +23,40 @@ DIRS = {"d1": "$" + "1A" * 20, "d2": "$" + "2B" * 20, "d3": "$" + "3C" * 20, "d4
 
 
 class Run(object):
-    def __init__(self, mode, kind):
-        self.mode, self.kind = mode, kind
+    def __init__(self, mode, kind, prelude=False):
+        self.mode, self.kind, self.prelude = mode, kind, prelude
         self.proto = TorControlProtocol()
         self.tr = proto_helpers.StringTransport()
         self.sim = simtor.SimTor(self.proto, self.tr)
         self.sim.version = "0.4.8.0"
         self.sim.info.update({"config/names": ["Nickname String"], "config/defaults": ["Nickname Unnamed"],
                               "onions/current": "", "onions/detached": ""})
-        self.sim.handlers["ADD_ONION"] = lambda line: ("250-ServiceID=%s\r\n250-PrivateKey=ED25519-V3:c29tZWtleQ==\r\n250 OK\r\n" % IDS["me"]).encode()
+        self.nadd = 0
+
+        def add_onion(line):
+            self.nadd += 1
+            sid = "previousprevious" if (self.prelude and self.nadd == 1) else IDS["me"]
+            return ("250-ServiceID=%s\r\n250-PrivateKey=ED25519-V3:c29tZWtleQ==\r\n250 OK\r\n" % sid).encode()
+        self.sim.handlers["ADD_ONION"] = add_onion
         self.proto.makeConnection(self.tr)
         self.sim.pump()
         d = TorConfig.from_protocol(self.proto)
         self.sim.pump()
         self.config = d.result
-        self.sim.hold = lambda line: line.startswith("ADD_ONION") or line.startswith("SETCONF HiddenService")
         self.reactor = proto_helpers.MemoryReactorClock()
+        self.hold_se = False
+        if prelude:
+            # an earlier service has just been created on this connection: its descriptor wait is over, the SETEVENTS
+            # that gives up HS_DESC is still unanswered when the creation under test starts
+            prev = EphemeralOnionService.create(self.reactor, self.config, ["81 127.0.0.1:8081"], version=3)
+            prev.addErrback(lambda f: None)
+            self.sim.pump()
+            self.sim.hold = lambda line: self.hold_se and line.startswith("SETEVENTS")
+            self.sim.event("650 HS_DESC UPLOAD previousprevious UNKNOWN $%s descp\r\n" % ("9E" * 20))
+            self.hold_se = True
+            self.sim.event("650 HS_DESC UPLOADED previousprevious UNKNOWN $%s\r\n" % ("9E" * 20))
+        self.sim.hold = lambda line: (line.startswith("ADD_ONION") or line.startswith("SETCONF HiddenService") or
+                                      (self.hold_se and line.startswith("SETEVENTS")))
         self.fired = []
         self.exc = False
         self.errors = []
@@ -61,6 +79,10 @@ class Run(object):
     def step(self, e):
         a = e["a"]
         try:
+            if self.hold_se:
+                # Tor answers the earlier service's unsubscription (and then whatever queued behind it)
+                self.hold_se = False
+                self.sim.release()
             if a == "Reply":
                 if self.kind == "fs":
                     with open(os.path.join(self.tmp, "hostname"), "w") as f:
@@ -91,8 +113,8 @@ class Run(object):
             shutil.rmtree(self.tmp, True)
 
 
-def replay(script, mode, kind):
-    run = Run(mode, kind)
+def replay(script, mode, kind, prelude=False):
+    run = Run(mode, kind, prelude)
     steps = []
     for e in script:
         s = dict(e)
@@ -101,7 +123,7 @@ def replay(script, mode, kind):
         if run.exc:
             break
     run.close()
-    return dict(steps=steps, mode=mode, kind=kind, errors=run.errors[:2])
+    return dict(steps=steps, mode=mode, kind=kind, prelude=prelude, errors=run.errors[:2])
 
 
 class _Sink(object):
